@@ -23,7 +23,7 @@ func init() {
 	register(&Family{
 		Name:    "meta",
 		Run:     runMeta,
-		Oracles: []func(*World, *History){OracleC02, OracleC01},
+		Oracles: []func(*World, *History){OracleC02, OracleC01, OracleLeak},
 		Nontrivial: func(w *World, h *History) bool {
 			return h.Derived["probe.meta_checked"] > 0
 		},
@@ -104,8 +104,8 @@ func runMeta(w *World, rs *RunSpec) {
 		}
 		cs.Wait()
 	}
-	w.Drain()
-	w.Shutdown()
+	w.DrainAndProbe()
+	w.FullShutdown()
 }
 
 func opsDesc(ops []Op) []string {
